@@ -300,6 +300,15 @@ def encode(C, run_order=None, split_runs=False):
 
 
 def decode(code, fmt, data, base=0):
+    """`_decode`, with a count that no payload of this size can hold (a garbage frame or item
+    count: allocation fails) reported as what it is - a malformed layout, not a harness failure."""
+    try:
+        return _decode(code, fmt, data, base)
+    except (MemoryError, OverflowError) as ex:
+        raise LayoutError(f"a count field is absurd for a payload of {len(data)} bytes ({type(ex).__name__})")
+
+
+def _decode(code, fmt, data, base=0):
     """Decode one block payload.  Returns (C, reader); reader.p == len(data) is asserted
     (every byte accounted for); reader.dc lists don't-care ranges, reader.noncanon the
     places where the bytes are not what a canonical writer emits."""
